@@ -4,7 +4,95 @@
      "gate <errors 0|1> <track 0|1> <found_unsafe 0|1> <mains> <cg ok|error|panic>"
         -> "notcompiled | nosinglemain | object | codegenfailed | crash<site>"   (Gate.gate) *)
 open Conv
+module Str_split = struct
+  let split (sep : string) (s : string) : string list =
+    let n = String.length sep and l = String.length s in
+    let rec go start i acc =
+      if i + n > l then List.rev (String.sub s start (l - start) :: acc)
+      else if String.sub s i n = sep then go (i + n) (i + n) (String.sub s start (i - start) :: acc)
+      else go start (i + 1) acc in
+    go 0 0 []
+end
 let b s = s = "1"
+
+(* "hir <world>"  (protocol: harness/c07/src/hirdump.rs) -> for every R / K entry in order
+   "<loc>=safe|unsafe|skip|crash<site>|fuel" : Gate.loc_unsafe of the extracted model on the
+   abstracted world *)
+let hir_case (line : string) : string =
+  let body = String.sub line 4 (String.length line - 4) in
+  let sections = List.map String.trim (Str_split.split " ; " body) in
+  let errs = Hashtbl.create 16 in
+  let lists : (int, Gate.node) Hashtbl.t = Hashtbl.create 64 in
+  let locs = Hashtbl.create 64 in
+  let words s = List.filter (fun x -> x <> "") (split_on ' ' s) in
+  let total = ref 0 in
+  let parse_node (w : string) : Gate.node =
+    match split_on ',' w with
+    | [id; k; t] ->
+      let id = n_of_int (int_of_string id) in
+      let locpoly s = (* "<loc>.<poly>" *)
+        match split_on '.' s with
+        | [l; p] -> (n_of_int (int_of_string l), p = "1")
+        | _ -> failwith "locpoly" in
+      let rest = String.sub k 1 (String.length k - 1) in
+      let kind = match k.[0] with
+        | 's' -> Gate.KStmt (rest = "1")
+        | 'm' -> Gate.KMissing
+        | 'p' -> Gate.KPlain
+        | 'g' -> let (l, p) = locpoly rest in Gate.KLocalGlobal (l, p)
+        | 'f' -> let (l, p) = locpoly rest in Gate.KMemberFile (l, p)
+        | 'c' -> Gate.KCall (rest = "1")
+        | 'l' -> Gate.KLambda
+        | _ -> failwith "kind" in
+      let ty = match t.[0] with
+        | 'o' -> Gate.TMetaOk | 'U' -> Gate.TMetaUnknown | 'n' -> Gate.TNone | 'u' -> Gate.TUnknown
+        | 'P' -> Gate.TPolyFn | 't' -> Gate.TOther
+        | 'F' -> Gate.TConcreteFn (n_of_int (int_of_string (String.sub t 1 (String.length t - 1))))
+        | _ -> failwith "ty" in
+      incr total;
+      Gate.Node (id, kind, ty, [])
+    | _ -> failwith "node" in
+  List.iter (fun sec ->
+    match words sec with
+    | "E" :: ids -> List.iter (fun i -> Hashtbl.replace errs (int_of_string i) ()) ids
+    | "N" :: li :: ":" :: nodes ->
+      (match List.map parse_node nodes with
+       | Gate.Node (i, k, t, _) :: rest -> Hashtbl.replace lists (int_of_string li) (Gate.Node (i, k, t, rest))
+       | [] -> ())
+    | ["L"; id; flags; body; lam; ret] -> Hashtbl.replace locs (int_of_string id) (flags, body, lam, ret)
+    | _ -> ()) sections;
+  let flag l i = match Hashtbl.find_opt locs (int_of_n l) with
+    | Some (f, _, _, _) -> f.[i] = '1' | None -> false in
+  let w = { Gate.lam_of = (fun l -> match Hashtbl.find_opt locs (int_of_n l) with
+              | Some (_, _, lam, ret) when lam <> "-" ->
+                let body = match lam.[0] with
+                  | 'B' -> (match Hashtbl.find_opt lists (int_of_string (String.sub lam 1 (String.length lam - 1))) with
+                            | Some n -> Gate.LBlock n | None -> Gate.LExtern)
+                  | 'E' -> Gate.LEmpty
+                  | _ -> Gate.LExtern in
+                Some { Gate.l_body = body; l_has_ret = (ret = "1") }
+              | _ -> None);
+            glob_body = (fun l -> match Hashtbl.find_opt locs (int_of_n l) with
+              | Some (_, body, _, _) when body <> "-" -> Hashtbl.find_opt lists (int_of_string body)
+              | _ -> None);
+            is_extern = (fun l -> flag l 0);
+            finished = (fun l -> flag l 1);
+            naive_found = (fun l -> flag l 2);
+            defined = (fun l -> flag l 3);
+            err = (fun i -> Hashtbl.mem errs (int_of_n i)) } in
+  let fuel = nat_of_int (4 * !total + 1000) in
+  let buf = Buffer.create 256 in
+  List.iter (fun sec ->
+    match words sec with
+    | ["K"; l] -> Buffer.add_string buf (Printf.sprintf "%s=skip " l)
+    | "R" :: l :: ":" :: roots ->
+      let rs = List.filter_map (fun r -> Hashtbl.find_opt lists (int_of_string r)) roots in
+      let v = match Gate.loc_unsafe fuel w (n_of_int (int_of_string l)) rs with
+        | Util.Ok true -> "unsafe" | Util.Ok false -> "safe"
+        | Util.Crash s -> Printf.sprintf "crash%d" (int_of_n s) | Util.OutOfFuel -> "fuel" in
+      Buffer.add_string buf (Printf.sprintf "%s=%s " l v)
+    | _ -> ()) sections;
+  String.trim (Buffer.contents buf)
 let () =
   iter_lines (fun line ->
     match split_on ' ' (String.trim line) with
@@ -23,4 +111,5 @@ let () =
         | Util.Ok Gate.CodegenFailed -> "codegenfailed"
         | Util.Crash s -> Printf.sprintf "crash%d" (int_of_n s)
         | Util.OutOfFuel -> "fuel")
+    | "hir" :: _ -> print_endline (hir_case line)
     | _ -> print_endline "?")
